@@ -32,13 +32,30 @@ def apply_patch(d, patch):
     return r.returncode == 0, r.stdout
 
 
+TARGET = [None]   # cargo target directory of this worker (parallel runs: one per worker)
+
+
+def worker_target(i):
+    """target directory for worker i: worker 0 shares the primed one, the others get a copy (made once)"""
+    base = os.path.join(runner.CACHE, 'target')
+    if i == 0:
+        return base
+    d = os.path.join(runner.CACHE, 'target-w%d' % i)
+    if not os.path.isdir(d):
+        tmp = d + '.tmp%d' % os.getpid()
+        subprocess.check_call(['cp', '-a', base, tmp])
+        os.rename(tmp, d)
+    return d
+
+
 def analyse(d, props, cfgs=('dbg',)):
     """facts for scratch dir d, then the violated keys per property"""
     out = {}
     fpaths = {}
+    tdir = TARGET[0] or os.path.join(runner.CACHE, 'target')
     for cfg in cfgs:
         fp = os.path.join(d, 'facts-%s.jsonl' % cfg)
-        runner.extract_facts(cfg, repo=d, out=fp, target_dir=os.path.join(runner.CACHE, 'target'))
+        runner.extract_facts(cfg, repo=d, out=fp, target_dir=tdir)
         fpaths[cfg] = fp
     for p in props:
         mod_cfgs = None
@@ -49,7 +66,7 @@ def analyse(d, props, cfgs=('dbg',)):
         for c in need:
             if c not in fpaths:
                 fp = os.path.join(d, 'facts-%s.jsonl' % c)
-                runner.extract_facts(c, repo=d, out=fp, target_dir=os.path.join(runner.CACHE, 'target'))
+                runner.extract_facts(c, repo=d, out=fp, target_dir=tdir)
                 fpaths[c] = fp
             over[c] = fpaths[c]
         rc, ctx = run_rules_only(p, over)
@@ -138,7 +155,7 @@ def cases(kind, only=None):
                 meta.update(meta['checker'])
             if only and only not in (meta.get('properties') or [meta.get('property')]):
                 continue
-            if meta.get('detected') is False:
+            if meta.get('detected') is False or meta.get('skip_reason'):
                 continue
             out.append((patch, meta))
         return out
@@ -154,22 +171,48 @@ def cases(kind, only=None):
     return out
 
 
-def summary_for_property(prop):
+def summary_for_property(prop, jobs=None):
     t0 = time.time()
+    jobs = jobs or int(os.environ.get('VERIF_JOBS', '4') or 1)
     out = {'mutants': 0, 'mutants_detected': 0, 'benign': 0, 'benign_silent': 0, 'seeded': 0, 'seeded_detected': 0, 'problems': [], 'cases': []}
+    todo = []
     for kind in ('mutants', 'benign', 'seeded'):
         for patch, meta in cases(kind, prop):
-            st, detail = run_case(patch, meta)
-            out['cases'].append({'patch': os.path.relpath(patch, VERIF), 'kind': kind, 'status': st})
-            if st == 'skipped':
-                continue
-            out[kind] += 1
-            if st == 'pass':
-                out[{'mutants': 'mutants_detected', 'benign': 'benign_silent', 'seeded': 'seeded_detected'}[kind]] += 1
-            else:
-                out['problems'].append('%s: %s' % (os.path.basename(patch), detail[:160]))
+            todo.append((kind, patch, meta, False))
+    done = []
+    if jobs > 1 and len(todo) > 1:
+        import multiprocessing as mp
+        q = mp.Queue()
+        for i in range(jobs):
+            worker_target(i)
+        with mp.Pool(jobs, initializer=_init_worker, initargs=(q,)) as pool:
+            for i in range(jobs):
+                q.put(i)
+            done = list(pool.imap_unordered(_run_one, todo))
+    else:
+        done = [_run_one(t) for t in todo]
+    for kind, patch, st, detail, dt in sorted(done, key=lambda r: r[1]):
+        out['cases'].append({'patch': os.path.relpath(patch, VERIF), 'kind': kind, 'status': st})
+        if st == 'skipped':
+            continue
+        out[kind] += 1
+        if st == 'pass':
+            out[{'mutants': 'mutants_detected', 'benign': 'benign_silent', 'seeded': 'seeded_detected'}[kind]] += 1
+        else:
+            out['problems'].append('%s: %s' % (os.path.basename(patch), detail[:160]))
     out['wall_s'] = round(time.time() - t0, 1)
     return out
+
+
+def _init_worker(q):
+    TARGET[0] = worker_target(q.get())
+
+
+def _run_one(args):
+    kind, patch, meta, keep = args
+    t0 = time.time()
+    st, detail = run_case(patch, meta, keep=keep)
+    return kind, patch, st, detail, time.time() - t0
 
 
 def main(argv):
@@ -179,16 +222,36 @@ def main(argv):
     ap.add_argument('--kind', default='all')
     ap.add_argument('--keep', action='store_true')
     ap.add_argument('--match', default=None)
+    ap.add_argument('--jobs', type=int, default=1, help='parallel scratch analyses (one cargo target directory each)')
     a = ap.parse_args(argv)
     kinds = ['mutants', 'benign', 'seeded'] if a.kind == 'all' else [a.kind]
     failed = 0
     total = 0
     results = []
+    todo = []
     for kind in kinds:
         for patch, meta in cases(kind, a.only):
             if a.match and a.match not in patch:
                 continue
-            total += 1
+            todo.append((kind, patch, meta))
+    total = len(todo)
+    if a.jobs > 1 and total > 1:
+        import multiprocessing as mp
+        q = mp.Queue()
+        for i in range(a.jobs):
+            worker_target(i)    # copies are made up front, sequentially
+        with mp.Pool(a.jobs, initializer=_init_worker, initargs=(q,)) as pool:
+            for i in range(a.jobs):
+                q.put(i)
+            for kind, patch, st, detail, dt in pool.imap_unordered(_run_one, [(k, p, m, a.keep) for k, p, m in todo]):
+                print('[%s] %-7s %s  (%.0fs)\n      %s' % (kind, st.upper(), os.path.relpath(patch, VERIF), dt, detail))
+                sys.stdout.flush()
+                results.append({'patch': os.path.relpath(patch, VERIF), 'kind': kind, 'status': st, 'detail': detail})
+                if st == 'fail':
+                    failed += 1
+        results.sort(key=lambda r: r['patch'])
+    else:
+        for kind, patch, meta in todo:
             t0 = time.time()
             st, detail = run_case(patch, meta, keep=a.keep)
             print('[%s] %-7s %s  (%.0fs)\n      %s' % (kind, st.upper(), os.path.relpath(patch, VERIF), time.time() - t0, detail))
